@@ -409,24 +409,24 @@ package process
 // binder is reported free (other than as the former's own subject), and the subject - which lies outside the scope of
 // the binders - is always reported
 //@ contract (*ReceiveForm).FreeNames
-//@   ensures C14.fnRecvBinders: forall k int :: 0 <= k && k < len(result) ==> result[k] == p.from_c || (!sameName(result[k], p.payload_c) && !sameName(result[k], p.continuation_c))
-//@   ensures C14.fnRecvSubject: !p.from_c.IsSelf ==> len(result) >= 1 && result[0] == p.from_c
+//@   ensures[C14] C14.fnRecvBinders: forall k int :: 0 <= k && k < len(result) ==> result[k] == p.from_c || (!sameName(result[k], p.payload_c) && !sameName(result[k], p.continuation_c))
+//@   ensures[C14] C14.fnRecvSubject: !p.from_c.IsSelf ==> len(result) >= 1 && result[0] == p.from_c
 //@   callsite C14.fnRecvKid process.Form.FreeNames#1: arg0 == p.continuation_e
 //@   callsite C14.fnRecvB1 process.removeBoundName#1: arg1 == p.payload_c
 //@   callsite C14.fnRecvB2 process.removeBoundName#2: arg1 == p.continuation_c
 //@ contract (*BranchForm).FreeNames
-//@   ensures C14.fnBranchBinder: forall k int :: 0 <= k && k < len(result) ==> !sameName(result[k], p.payload_c)
+//@   ensures[C14] C14.fnBranchBinder: forall k int :: 0 <= k && k < len(result) ==> !sameName(result[k], p.payload_c)
 //@   callsite C14.fnBranchKid process.Form.FreeNames#1: arg0 == p.continuation_e
 //@   callsite C14.fnBranchB process.removeBoundName#1: arg1 == p.payload_c
 //@ contract (*SplitForm).FreeNames
-//@   ensures C14.fnSplitBinders: forall k int :: 0 <= k && k < len(result) ==> result[k] == p.from_c || (!sameName(result[k], p.channel_one) && !sameName(result[k], p.channel_two))
-//@   ensures C14.fnSplitSubject: !p.from_c.IsSelf ==> len(result) >= 1 && result[0] == p.from_c
+//@   ensures[C14] C14.fnSplitBinders: forall k int :: 0 <= k && k < len(result) ==> result[k] == p.from_c || (!sameName(result[k], p.channel_one) && !sameName(result[k], p.channel_two))
+//@   ensures[C14] C14.fnSplitSubject: !p.from_c.IsSelf ==> len(result) >= 1 && result[0] == p.from_c
 //@   callsite C14.fnSplitKid process.Form.FreeNames#1: arg0 == p.continuation_e
 //@   callsite C14.fnSplitB1 process.removeBoundName#1: arg1 == p.channel_one
 //@   callsite C14.fnSplitB2 process.removeBoundName#2: arg1 == p.channel_two
 //@ contract (*ShiftForm).FreeNames
-//@   ensures C14.fnShiftBinder: forall k int :: 0 <= k && k < len(result) ==> result[k] == p.from_c || !sameName(result[k], p.continuation_c)
-//@   ensures C14.fnShiftSubject: !p.from_c.IsSelf ==> len(result) >= 1 && result[0] == p.from_c
+//@   ensures[C14] C14.fnShiftBinder: forall k int :: 0 <= k && k < len(result) ==> result[k] == p.from_c || !sameName(result[k], p.continuation_c)
+//@   ensures[C14] C14.fnShiftSubject: !p.from_c.IsSelf ==> len(result) >= 1 && result[0] == p.from_c
 //@   callsite C14.fnShiftKid process.Form.FreeNames#1: arg0 == p.continuation_e
 //@   callsite C14.fnShiftB process.removeBoundName#1: arg1 == p.continuation_c
 //@ contract (*NewForm).FreeNames
@@ -435,14 +435,14 @@ package process
 //@   callsite C14.fnNewB process.removeBoundName#1: arg1 == p.new_name_c
 //@   callsite C14.fnNewMerge process.mergeTwoNamesList#2: true
 //@ contract (*CaseForm).FreeNames
-//@   ensures C14.fnCaseSubject: !p.from_c.IsSelf ==> len(result) >= 1 && result[0] == p.from_c
-//@   loop 1 invariant !p.from_c.IsSelf ==> len(fn) >= 1 && fn[0] == p.from_c
+//@   ensures[C14] C14.fnCaseSubject: !p.from_c.IsSelf ==> len(result) >= 1 && result[0] == p.from_c
+//@   loop[C14] 1 invariant !p.from_c.IsSelf ==> len(fn) >= 1 && fn[0] == p.from_c
 //@   callsite C14.fnCaseBranch (*process.BranchForm).FreeNames#1: arg0 == p.branches[idx1 + 1]
 //@ contract (*WaitForm).FreeNames
-//@   ensures C14.fnWaitSubject: !p.to_c.IsSelf ==> len(result) >= 1 && result[0] == p.to_c
+//@   ensures[C14] C14.fnWaitSubject: !p.to_c.IsSelf ==> len(result) >= 1 && result[0] == p.to_c
 //@   callsite C14.fnWaitKid process.Form.FreeNames#1: arg0 == p.continuation_e
 //@ contract (*DropForm).FreeNames
-//@   ensures C14.fnDropSubject: !p.client_c.IsSelf ==> len(result) >= 1 && result[0] == p.client_c
+//@   ensures[C14] C14.fnDropSubject: !p.client_c.IsSelf ==> len(result) >= 1 && result[0] == p.client_c
 //@   callsite C14.fnDropKid process.Form.FreeNames#1: arg0 == p.continuation_e
 //@ contract (*PrintForm).FreeNames
 //@   callsite C14.fnPrintKid process.Form.FreeNames#1: arg0 == p.continuation_e
